@@ -91,8 +91,8 @@ fn layout_body<const NV: usize, const NA: usize>(fast_start: bool, audio_track: 
             assert!(v.chunk_offsets[0] as u64 == data_start, "single chunk starts right after the mdat header");
         }
     }
-    kani::cover!(any_off, "composition offsets present");
-    kani::cover!(!any_off, "no composition offsets");
+    crate::vcover!(any_off, "composition offsets present");
+    crate::vcover!(!any_off, "no composition offsets");
     core::mem::forget((w, r, md));
 }
 
@@ -165,7 +165,7 @@ pub fn c08_api_flag_plumbing() {
     let moov_pos = sink.pos_of(MOOV_TAG).unwrap();
     let mdat_pos = sink.pos_of(b'm').unwrap() - 4;
     assert!((moov_pos < mdat_pos) == fast, "moov precedes mdat iff fast start was requested");
-    kani::cover!(fast, "fast start");
-    kani::cover!(!fast, "standard");
+    crate::vcover!(fast, "fast start");
+    crate::vcover!(!fast, "standard");
     core::mem::forget((m, r0, r));
 }
